@@ -54,7 +54,7 @@ def pnum(e):
     v = e['v']; fmt = e.get('fmt')
     if fmt == 'hex':
         return '#%X' % (v % 2 ** 32)
-    if fmt == 'char' and 32 <= v < 127:
+    if fmt == 'char' and (32 <= v < 127 or 128 <= v < 255):
         return "'%s'" % ESC.get(chr(v), chr(v))
     if fmt == 'bool' and v in (0, 1):
         return 'true' if v else 'false'
@@ -533,6 +533,16 @@ def template_programs(rng):
         ss = [putc(call('at', [strlit('$s'), num(i)])) for i in (0, 1, nw - 1)]
         ss.append(exit_(bi('-', call('at', [strlit('$s'), num(0)]), call('at', [strlit('$s'), num(nw - 2)]))))
         out.append(('string:long:%d' % n, std_program(seq(ss), strings={'$s': txt})))
+    # string literals and character constants with bytes above 127 (Latin-1 / UTF-8 text): a byte is a byte, 0..255
+    for nm, txt in (('utf8', [0xC3, 0xA9, 0x7A]), ('first', [0x80, 0x41, 0x42, 0x43, 0x44]), ('last', [0x41, 0x42, 0xFE]), ('mid', [0x61, 0xE9, 0x62, 0x63, 0xA0, 0x64, 0x65, 0x66]),
+                    ('all', [0x80, 0x81, 0xFE, 0xFD, 0x90, 0xA5, 0xB6])):
+        nw = (len(txt) + 4) // 4
+        ss = [putc(call('at', [strlit('$s'), num(i)])) for i in range(nw)]
+        ss.append(exit_(call('sum', [strlit('$s'), num(nw)])))
+        out.append(('string:high:%s' % nm, std_program(seq(ss), strings={'$s': txt})))
+    for v in (128, 160, 233, 254):
+        c = dict(num(v), fmt='char')
+        out.append(('char:high:%d' % v, std_program(seq([putc(c), iff(bi('<', c, num(0)), putc(num(78)), putc(num(80))), exit_(bi('-', c, num(100)))]))))
     # tail calls whose actuals are bare formals in other positions (a compiler that turns them into jumps must assign the formals in parallel)
     alt = proc(True, [('val', 'n'), ('val', 'p'), ('val', 'q')], [], iff(bi('=', var('n'), num(0)), ret(bi('-', var('p'), var('q'))), ret(call('alt', [bi('-', var('n'), num(1)), var('q'), var('p')]))))
     rot = proc(True, [('val', 'n'), ('val', 'p'), ('val', 'q'), ('val', 'r')], [],
